@@ -1,6 +1,7 @@
 import UF.Basic.Bytes
 import UF.Gen.Facts
 import UF.Spec.Mask
+import UF.Model.RegexParse
 /-
   C03 — model of the TEXT rewriting that turns a basic (mask) pattern into regular-expression
   source text:  rules/regex.go `patternToRegexp`, `specialCharReplacer`;  rules/network.go
@@ -140,5 +141,59 @@ def emitByte (b : UInt8) : Bytes :=
 def maskText (p : Bytes) : Bytes :=
   let (s, b, e) := UF.MaskSpec.splitMask p
   startText s ++ b.flatMap emitByte ++ endText e
+
+/-! ### The expression a mask pattern stands for, and the compiled matcher -/
+
+open UF.MaskSpec UF.Re in
+/-- `([^ a-zA-Z0-9.%_-]|$)` -/
+def sepAst : Re :=
+  .grp (.alt (.cls true [(32, 32), (97, 122), (65, 90), (48, 57), (46, 46), (37, 37), (95, 95), (45, 45)] false) .eol)
+
+/-- One literal character. -/
+def litAtom (c : UInt8) : Re := .lit [c] false
+
+/-- `[a-z0-9-_.]` -/
+def hostCls : Re := .cls false [(97, 122), (48, 57), (45, 45), (95, 95), (46, 46)] false
+
+/-- `^(http|https|ws|wss)://([a-z0-9-_.]+\.)?` as a list of atoms. -/
+def startUrlAtoms : List Re :=
+  [ .bol,
+    .grp (.alt (Re.mkCat ((lit "http").map litAtom)) (.alt (Re.mkCat ((lit "https").map litAtom))
+      (.alt (Re.mkCat ((lit "ws").map litAtom)) (Re.mkCat ((lit "wss").map litAtom))))),
+    litAtom 58, litAtom 47, litAtom 47,
+    .quest (.grp (.cat (.plus hostCls) (litAtom 46))) ]
+
+open UF.MaskSpec in
+def startAtoms : Start → List Re
+  | .none => []
+  | .pipe => [.bol]
+  | .dbl => startUrlAtoms
+
+open UF.MaskSpec in
+def tokAtom : Tok → Re
+  | .lit c => litAtom c
+  | .star => .star .any
+  | .sep => sepAst
+
+def endAtoms (e : Bool) : List Re := if e then [.eol] else []
+
+open UF.MaskSpec in
+def maskAtoms (p : MaskPat) : List Re := startAtoms p.start ++ p.body.map tokAtom ++ endAtoms p.endPipe
+
+open UF.MaskSpec in
+/-- The regular expression a mask pattern stands for (`mc` = `$match-case`). -/
+def maskAst (p : MaskPat) (mc : Bool) : Re :=
+  if mc then Re.mkCat (maskAtoms p) else (Re.mkCat (maskAtoms p)).foldCase
+
+/-- What `matchPattern` answers for a rule whose stored pattern is `pattern`:
+    status 0 ⇒ true, compile error (status -1) ⇒ false, otherwise unanchored `MatchString`. -/
+def compiledAccepts (pattern : Bytes) (mc : Bool) (u : Bytes) : Bool :=
+  match preparePatternText pattern mc with
+  | .any => true
+  | .text t =>
+    match Re.parseRE t with
+    | some r => r.search u
+    | none => false
+  | .panic => false
 
 end UF.Mask
